@@ -11,6 +11,8 @@ PRELUDE_POOL = r"""
 #[verifier::external_body] pub fn anyhow_error() -> AnyhowError { unimplemented!() }
 #[verifier::external_body] #[verifier::reject_recursive_types(K)] pub struct KSet<K> { _p: core::marker::PhantomData<K> }
 #[verifier::external_body] #[verifier::reject_recursive_types(K)] #[verifier::reject_recursive_types(V)] pub struct ImMap<K, V> { _p: core::marker::PhantomData<(K, V)> }
+// A1: the pool's keys (node / validator public keys) derive Clone: a clone is an equal key
+pub trait KeyLike: Sized { fn clone(&self) -> (r: Self) ensures r == *self; }
 impl<K> KSet<K> {
     pub uninterp spec fn view(&self) -> Set<K>;
     #[verifier::external_body] pub fn contains(&self, k: &K) -> (r: bool) ensures r == self@.contains(*k) { unimplemented!() }
@@ -20,7 +22,7 @@ impl<K, V> ImMap<K, V> {
     #[verifier::external_body] pub fn new() -> (r: Self) ensures r@ == Map::<K, V>::empty() { unimplemented!() }
     #[verifier::external_body] pub fn contains_key(&self, k: &K) -> (r: bool) ensures r == self@.contains_key(*k) { unimplemented!() }
     #[verifier::external_body] pub fn insert(&mut self, k: K, v: V) -> (r: Option<V>)
-        ensures final(self)@ == old(self)@.insert(k, v) { unimplemented!() }
+        ensures final(self)@ == old(self)@.insert(k, v), r.is_some() == old(self)@.contains_key(k) { unimplemented!() }
     #[verifier::external_body] pub fn remove(&mut self, k: &K) -> (r: Option<V>)
         ensures final(self)@ == old(self)@.remove(*k), r.is_some() == old(self)@.contains_key(*k) { unimplemented!() }
 }
@@ -158,18 +160,13 @@ def add_pool(U):
            attrs="#[verifier::reject_recursive_types(K)] #[verifier::reject_recursive_types(V)]")
     U.raw(SPEC_POOL, label="spec pool")
     U.lift_closure(F_POOL, "impl<K: std::hash::Hash + Eq + Clone, V: Clone> PoolWatch<K, V> :: fn insert", "|pool|",
-                   "pool_insert", "<K, V>(pool: &mut Pool<K, V>, k: K, v: V) -> (r: Result<(), AnyhowError>)",
-                   post_subs=[("pool.current.insert(k, v);", """proof {
+                   "pool_insert", "<K: KeyLike, V>(pool: &mut Pool<K, V>, k: K, v: V) -> (r: Result<(), AnyhowError>)",
+                   # W-ghost: set-cardinality facts about the OLD pool, stated up front so that no statement of the closure is an anchor
+                   proof_at_start="""proof {
                         let d = old(pool).current@.dom();
-                        assert(pool.current@.dom().insert(k) =~= d.insert(k));
-                        if !old(pool).allowed@.contains(k) {
-                            assert(d.insert(k).difference(pool.allowed@) =~= d.difference(pool.allowed@).insert(k));
-                        } else {
-                            assert(d.insert(k).difference(pool.allowed@) =~= d.difference(pool.allowed@));
-                        }
-                        vstd::set_lib::lemma_set_difference_len(d, pool.allowed@);
-                    }
-                    pool.current.insert(k, v);""")],
+                        assert(d.insert(k).difference(old(pool).allowed@) =~= (if !old(pool).allowed@.contains(k) { d.difference(old(pool).allowed@).insert(k) } else { d.difference(old(pool).allowed@) }));
+                        vstd::set_lib::lemma_set_difference_len(d, old(pool).allowed@);
+                    }""",
                    spec="""
     requires old(pool).wf(),
     ensures
@@ -181,7 +178,7 @@ def add_pool(U):
         r.is_err() ==> *final(pool) == *old(pool),
 """)
     U.lift_closure(F_POOL, "impl<K: std::hash::Hash + Eq + Clone, V: Clone> PoolWatch<K, V> :: fn remove", "|pool|",
-                   "pool_remove", "<K, V>(pool: &mut Pool<K, V>, k: &K) -> (r: bool)",
+                   "pool_remove", "<K: KeyLike, V>(pool: &mut Pool<K, V>, k: &K) -> (r: bool)",
                    post_subs=[("if pool.current.remove(k).is_none() {", """proof {
                         let d = old(pool).current@.dom();
                         assert(d.remove(*k).difference(pool.allowed@) =~= d.difference(pool.allowed@).remove(*k));
@@ -261,7 +258,10 @@ pub open spec fn val_authenticated(sid: Keccak256, genesis: GenesisHash, k: Vali
 #[verifier::external_body] pub struct NodePool { _p: u8 }
 #[verifier::external_body] pub struct ValPool { _p: u8 }
 #[verifier::external_body] pub struct ValKeySet { _p: u8 }              // HashSet<validator::PublicKey>
-impl ValKeySet { pub uninterp spec fn view(&self) -> Set<ValidatorKey>; }
+impl ValKeySet {
+    pub uninterp spec fn view(&self) -> Set<ValidatorKey>;
+    #[verifier::external_body] pub fn len(&self) -> (r: usize) ensures r == self@.len() { unimplemented!() }
+}
 impl Clone for ValKeySet { #[verifier::external_body] fn clone(&self) -> (r: Self) ensures r == *self { unimplemented!() } }
 impl NodePool {
     // the configured ("allowed") identities and the quota for all others: what PoolWatch::new (verified above as pool_new) stores
@@ -386,7 +386,9 @@ pub struct GossipNetworkAll {
 // consensus side: the committee of the epoch as a key set
 #[verifier::external_body] pub struct ValSchedule { _p: u8 }
 impl ValSchedule { pub uninterp spec fn members(&self) -> Set<ValidatorKey>; }
-#[verifier::external_body] pub fn tmpl_schedule_keys_cloned_collect(s: &ValSchedule) -> (r: ValKeySet) ensures r@ == s.members() { unimplemented!() }   // .keys().cloned().collect()
+#[verifier::external_body] pub fn tmpl_schedule_keys_cloned_collect(s: &ValSchedule) -> (r: ValKeySet)
+    // the committee is never empty (Schedule::new rejects an empty list, unit leader): its size is a positive number, not a quota of 0
+    ensures r@ == s.members(), r@.finite(), r@.len() > 0 { unimplemented!() }   // .keys().cloned().collect()
 pub struct GossipForConsensus { pub epoch_number: Option<EpochNumber>, pub validator_key: Option<ValidatorSecret>, pub schedule: Option<ValSchedule> }
 impl GossipForConsensus {
     #[verifier::external_body] pub fn validator_schedule(&self) -> (r: Result<Option<&ValSchedule>, AnyhowError>)
